@@ -39,6 +39,8 @@ def gen_case(rng: random.Random, tier: str) -> dict:
             steps.append(_idx.gen_user_step(rng, feats))
         elif x < 0.60:
             steps.append({"op": "reindex"})
+            if rng.random() < 0.1:
+                steps[-1]["tick"] = rng.randrange(0, 6)  # fault: midnight strikes during the command
         elif x < 0.70:
             steps.append({"op": "reindex", "paths": {"pick": [rng.randrange(1000) for _ in range(rng.randint(1, 2))]}})
         elif x < 0.78:
@@ -53,7 +55,7 @@ def gen_case(rng: random.Random, tier: str) -> dict:
         elif x < 0.90:
             steps.append({"op": "move", "note": rng.randrange(1000), "dest": rng.randrange(1000), "marker": rng.choice([None, None, "x", "~"])})
         else:
-            steps.append({"op": "day", "days": rng.choice([1, 1, 2, 31, 366])})
+            steps.append({"op": "day", "days": rng.choice([1, 1, 2, 31, 366, -1, -2])})  # negative: the clock is set back
     if rng.random() < 0.3:
         # a page goes away, the index forgets it, and it comes back byte-identical
         pg = rng.randrange(1000)
@@ -90,6 +92,7 @@ def execute(case: dict, scratch: str) -> dict:
             rec.stat("days", st["days"])
             rec.note("day", days=st["days"])
             facts["day_changed"] = True
+            rec.probe("fault:clock-set-back", int(st["days"] < 0))
             continue
         if op == "user":
             reports = user.apply_edits(sim.zdir, st["edits"], sim.day)
@@ -106,8 +109,13 @@ def execute(case: dict, scratch: str) -> dict:
                 rec.probe("two-or-more-pages-changed-in-one-reindex", int(len(todo) >= 2))
                 rec.probe("plain-reindex-after-explicit-path-reindex", int(facts["paths_reindex_pending"]))
                 rec.probe("reindex-on-a-later-day", int(bool(facts.get("day_changed"))))
-            o = sim.run(real)
-            rec.proc(real, None, o, sim)
+            fault = {"kind": "midnight-tick", "after": st["tick"]} if st.get("tick") is not None else None
+            o = sim.run(real, fault=fault)
+            if fault and o.clock_reads > st["tick"]:
+                sim.day += 1
+                rec.probe("fault:midnight-tick")
+                rec.stat("days", 1)
+            rec.proc(real, fault, o, sim)
             if o.status != "ok":
                 return rec.result(hist.viol("reindex-failed", _idx.exc_cause(o), step=i, op=real, msg=(o.exc or {}).get("msg")))
             if paths:
